@@ -483,3 +483,188 @@ Proof.
   pose proof (switching_nonneg r0 r0v en ed tol cell (a_pos (fst pr)) (a_pos (snd pr))). rs.
   destruct b; lra.
 Qed.
+
+(* ------------------------------------------------------------------ every proper rotation is the matrix of a unit quaternion *)
+Lemma qscale_rotation_matrix (w : R) (u : Q4) (a b c d e f g h i : R) :
+  rotation_matrix Rops u = ((a, b, c), (d, e, f), (g, h, i)) ->
+  rotation_matrix Rops (qscale w u) =
+  ((w * w * a, w * w * b, w * w * c), (w * w * d, w * w * e, w * w * f), (w * w * g, w * w * h, w * w * i)).
+Proof.
+  dq u. unfold rotation_matrix, qscale. rs. intros H. inversion H; subst.
+  repeat match goal with |- (_, _) = (_, _) => apply f_equal2 end; ring.
+Qed.
+Lemma qnorm2_qscale (w : R) (u : Q4) : qnorm2 (qscale w u) = w * w * qnorm2 u.
+Proof. dq u. unfold qnorm2, qdot, qscale. rs. ring. Qed.
+
+Lemma scaled_quaternion (u : Q4) (s : R) (a b c d e f g h i : R) : 0 < s -> qnorm2 u = 4 * s ->
+  rotation_matrix Rops u = ((4 * s * a, 4 * s * b, 4 * s * c), (4 * s * d, 4 * s * e, 4 * s * f), (4 * s * g, 4 * s * h, 4 * s * i)) ->
+  exists q : Q4, qnorm2 q = 1 /\ rotation_matrix Rops q = ((a, b, c), (d, e, f), (g, h, i)).
+Proof.
+  intros Hs Hn HR. set (w := / (2 * sqrt s)).
+  assert (Hsq : 0 < sqrt s) by (apply sqrt_lt_R0; exact Hs).
+  assert (Hw : w * w = / (4 * s)).
+  { unfold w. rewrite <- Rinv_mult. f_equal. replace (2 * sqrt s * (2 * sqrt s)) with (4 * (sqrt s * sqrt s)) by ring.
+    rewrite sqrt_sqrt by lra. reflexivity. }
+  exists (qscale w u). split.
+  - rewrite qnorm2_qscale, Hn, Hw. field. lra.
+  - rewrite (qscale_rotation_matrix w u _ _ _ _ _ _ _ _ _ HR), Hw.
+    repeat match goal with |- (_, _) = (_, _) => apply f_equal2 end; field; lra.
+Qed.
+
+Lemma sum3_sq_zero (x y z : R) : x * x + y * y + z * z = 0 -> x = 0 /\ y = 0 /\ z = 0.
+Proof. intros H. repeat split; nra. Qed.
+Lemma rotation_is_quaternion (M : M3) : proper_rotation M -> exists q : Q4, qnorm2 q = 1 /\ rotation_matrix Rops q = M.
+Proof.
+  dm M. rename Ma into a, Mb into b, Mc into c, Md into d, Me into e, Mf into f, Mg into g, Mh into h, Mi into i.
+  intros [Ho Hdet]. apply orthogonal_eqs in Ho. destruct Ho as (C1 & C12 & C13 & C2 & C23 & C3).
+  unfold det3 in Hdet.
+  (* columns: c1 = c2 x c3, c2 = c3 x c1, c3 = c1 x c2 (cofactor equations) *)
+  assert (S1 : (a - (e * i - f * h)) * (a - (e * i - f * h)) + (d - (c * h - b * i)) * (d - (c * h - b * i)) +
+               (g - (b * f - c * e)) * (g - (b * f - c * e)) = 0).
+  { transitivity ((a * a + d * d + g * g) - 2 * (a * (e * i - f * h) - b * (d * i - f * g) + c * (d * h - e * g)) +
+                  ((b * b + e * e + h * h) * (c * c + f * f + i * i) - (b * c + e * f + h * i) * (b * c + e * f + h * i))); [ring|].
+    rewrite C1, C2, C3, C23, Hdet. ring. }
+  assert (S2 : (b - (f * g - d * i)) * (b - (f * g - d * i)) + (e - (a * i - c * g)) * (e - (a * i - c * g)) +
+               (h - (c * d - a * f)) * (h - (c * d - a * f)) = 0).
+  { transitivity ((b * b + e * e + h * h) - 2 * (a * (e * i - f * h) - b * (d * i - f * g) + c * (d * h - e * g)) +
+                  ((c * c + f * f + i * i) * (a * a + d * d + g * g) - (a * c + d * f + g * i) * (a * c + d * f + g * i))); [ring|].
+    rewrite C1, C2, C3, C13, Hdet. ring. }
+  assert (S3 : (c - (d * h - e * g)) * (c - (d * h - e * g)) + (f - (b * g - a * h)) * (f - (b * g - a * h)) +
+               (i - (a * e - b * d)) * (i - (a * e - b * d)) = 0).
+  { transitivity ((c * c + f * f + i * i) - 2 * (a * (e * i - f * h) - b * (d * i - f * g) + c * (d * h - e * g)) +
+                  ((a * a + d * d + g * g) * (b * b + e * e + h * h) - (a * b + d * e + g * h) * (a * b + d * e + g * h))); [ring|].
+    rewrite C1, C2, C3, C12, Hdet. ring. }
+  apply sum3_sq_zero in S1. destruct S1 as (Ka' & Kd' & Kg').
+  apply sum3_sq_zero in S2. destruct S2 as (Kb' & Ke' & Kh').
+  apply sum3_sq_zero in S3. destruct S3 as (Kc' & Kf' & Ki').
+  assert (Ka : a = e * i - f * h) by lra. assert (Kd : d = c * h - b * i) by lra. assert (Kg : g = b * f - c * e) by lra.
+  assert (Kb : b = f * g - d * i) by lra. assert (Ke : e = a * i - c * g) by lra. assert (Kh : h = c * d - a * f) by lra.
+  assert (Kc : c = d * h - e * g) by lra. assert (Kf : f = b * g - a * h) by lra. assert (Ki : i = a * e - b * d) by lra.
+  clear Ka' Kb' Kc' Kd' Ke' Kf' Kg' Kh' Ki'.
+  (* rows are orthonormal too: M adj(M) = det(M) I with adj(M) = M^T *)
+  assert (R1 : a * a + b * b + c * c = 1).
+  { assert (a * a = a * (e * i - f * h)) by (f_equal; exact Ka). assert (b * b = b * (f * g - d * i)) by (f_equal; exact Kb).
+    assert (c * c = c * (d * h - e * g)) by (f_equal; exact Kc). lra. }
+  assert (R2 : d * d + e * e + f * f = 1).
+  { assert (d * d = d * (c * h - b * i)) by (f_equal; exact Kd). assert (e * e = e * (a * i - c * g)) by (f_equal; exact Ke).
+    assert (f * f = f * (b * g - a * h)) by (f_equal; exact Kf). lra. }
+  assert (R3 : g * g + h * h + i * i = 1).
+  { assert (g * g = g * (b * f - c * e)) by (f_equal; exact Kg). assert (h * h = h * (c * d - a * f)) by (f_equal; exact Kh).
+    assert (i * i = i * (a * e - b * d)) by (f_equal; exact Ki). lra. }
+  assert (R12 : a * d + b * e + c * f = 0).
+  { assert (d * a = d * (e * i - f * h)) by (f_equal; exact Ka). assert (e * b = e * (f * g - d * i)) by (f_equal; exact Kb).
+    assert (f * c = f * (d * h - e * g)) by (f_equal; exact Kc). lra. }
+  assert (R13 : a * g + b * h + c * i = 0).
+  { assert (g * a = g * (e * i - f * h)) by (f_equal; exact Ka). assert (h * b = h * (f * g - d * i)) by (f_equal; exact Kb).
+    assert (i * c = i * (d * h - e * g)) by (f_equal; exact Kc). lra. }
+  assert (R23 : d * g + e * h + f * i = 0).
+  { assert (g * d = g * (c * h - b * i)) by (f_equal; exact Kd). assert (h * e = h * (a * i - c * g)) by (f_equal; exact Ke).
+    assert (i * f = i * (b * g - a * h)) by (f_equal; exact Kf). lra. }
+  (* one of the four diagonal entries of 4 q q^T = (1+a+e+i, 1+a-e-i, 1-a+e-i, 1-a-e+i) is at least 1 *)
+  destruct (Rle_dec 1 (1 + a + e + i)) as [H0|H0].
+  { apply (scaled_quaternion (1 + a + e + i, h - f, c - g, d - b) (1 + a + e + i)); [lra| |].
+    - unfold qnorm2, qdot. rs. lra.
+    - unfold rotation_matrix. rs. repeat match goal with |- (_, _) = (_, _) => apply f_equal2 end; lra. }
+  destruct (Rle_dec 1 (1 + a - e - i)) as [H1|H1].
+  { apply (scaled_quaternion (h - f, 1 + a - e - i, b + d, c + g) (1 + a - e - i)); [lra| |].
+    - unfold qnorm2, qdot. rs. lra.
+    - unfold rotation_matrix. rs. repeat match goal with |- (_, _) = (_, _) => apply f_equal2 end; lra. }
+  destruct (Rle_dec 1 (1 - a + e - i)) as [H2|H2].
+  { apply (scaled_quaternion (c - g, b + d, 1 - a + e - i, f + h) (1 - a + e - i)); [lra| |].
+    - unfold qnorm2, qdot. rs. lra.
+    - unfold rotation_matrix. rs. repeat match goal with |- (_, _) = (_, _) => apply f_equal2 end; lra. }
+  apply (scaled_quaternion (d - b, c + g, f + h, 1 - a - e + i) (1 - a - e + i)); [lra| |].
+  - unfold qnorm2, qdot. rs. lra.
+  - unfold rotation_matrix. rs. repeat match goal with |- (_, _) = (_, _) => apply f_equal2 end; lra.
+Qed.
+
+(* the rigid-motion lemmas for every proper rotation matrix *)
+Lemma rmsd_rigid_M (M : M3) (q q' : Q4) ref t g : proper_rotation M -> g <> [] ->
+  is_optimal q (fit_pairs Rops ref g) -> is_optimal q' (fit_pairs Rops ref (shift_group t (rot_group M g))) ->
+  cv_rmsd Rops q' ref (shift_group t (rot_group M g)) = cv_rmsd Rops q ref g.
+Proof. intros HM. destruct (rotation_is_quaternion M HM) as [p [Hp <-]]. apply rmsd_rigid. exact Hp. Qed.
+Lemma fitted_rigid_M (M : M3) (q q' : Q4) ref vec t g : proper_rotation M -> g <> [] ->
+  unique_optimum (fit_pairs Rops ref g) ->
+  is_optimal q (fit_pairs Rops ref g) -> is_optimal q' (fit_pairs Rops ref (shift_group t (rot_group M g))) ->
+  fit_positions Rops q' ref (shift_group t (rot_group M g)) = fit_positions Rops q ref g /\
+  cv_eigenvector Rops q' ref vec (shift_group t (rot_group M g)) = cv_eigenvector Rops q ref vec g.
+Proof.
+  intros HM. destruct (rotation_is_quaternion M HM) as [p [Hp <-]]. intros.
+  split; [apply (fit_positions_rigid p q q') | apply (eigenvector_rigid p q q')]; assumption.
+Qed.
+Lemma orientation_rigid_M (M : M3) (q q' : Q4) ref t g : proper_rotation M -> g <> [] ->
+  is_optimal q (orient_pairs Rops ref g) -> is_optimal q' (orient_pairs Rops ref (shift_group t (rot_group M g))) ->
+  (exists p : Q4, qnorm2 p = 1 /\ rotation_matrix Rops p = M /\
+                  is_optimal (qmul Rops p q) (orient_pairs Rops ref (shift_group t (rot_group M g)))) /\
+  sq_dev Rops q' (orient_pairs Rops ref (shift_group t (rot_group M g))) = sq_dev Rops q (orient_pairs Rops ref g) /\
+  (unique_optimum (orient_pairs Rops ref (shift_group t (rot_group M g))) ->
+   forall v : V3, rotate Rops q' v = mat_vec Rops M (rotate Rops q v)).
+Proof.
+  intros HM Hg Hq Hq'. destruct (rotation_is_quaternion M HM) as [p [Hp HpM]]. subst M.
+  assert (Hg' : rot_group (rotation_matrix Rops p) g <> []) by (destruct g; [congruence | discriminate]).
+  split; [|split].
+  - exists p. split; [exact Hp|]. split; [reflexivity|].
+    rewrite orient_pairs_shift, orient_pairs_rot by exact Hg'. apply optimal_rot_second; assumption.
+  - apply orientation_dev_rigid; assumption.
+  - intros Hu v. apply (orientation_rigid p q q' ref t g); assumption.
+Qed.
+
+(* ------------------------------------------------------------------ groups fitted through a fitting group *)
+Lemma fit_general_self (q : Q4) ref g : fit_general Rops true q ref g g = fit_positions Rops q ref g.
+Proof. unfold fit_general, fit_positions, centered. cbv zeta. rewrite map_map. reflexivity. Qed.
+Lemma fit_general_rigid (M : M3) (q q' : Q4) ref t fitg g : proper_rotation M -> fitg <> [] ->
+  unique_optimum (fit_pairs Rops ref fitg) ->
+  is_optimal q (fit_pairs Rops ref fitg) -> is_optimal q' (fit_pairs Rops ref (shift_group t (rot_group M fitg))) ->
+  fit_general Rops true q' ref (shift_group t (rot_group M fitg)) (shift_group t (rot_group M g)) = fit_general Rops true q ref fitg g.
+Proof.
+  intros HM Hg Hu Hq Hq'. destruct (rotation_is_quaternion M HM) as [p [Hp HpM]]. subst M.
+  assert (Hg' : rot_group (rotation_matrix Rops p) fitg <> []) by (destruct fitg; [congruence | discriminate]).
+  rewrite fit_pairs_shift, fit_pairs_rot in Hq' by exact Hg'.
+  pose proof (optimal_unrot_first p q' _ Hp Hq') as Hq'p.
+  pose proof (Hu _ _ Hq'p Hq) as HMq.
+  unfold fit_general. cbv zeta. rewrite cog_shift, cog_rot by exact Hg'.
+  unfold shift_group, rot_group. rewrite !map_map. apply map_ext. intros a. cbn [a_pos shift_atom rot_atom].
+  f_equal. rewrite v3sub_shift, mat_vec_sub.
+  change (mat_vec Rops (rotation_matrix Rops p) (v3sub Rops (a_pos a) (cog Rops fitg))) with (rotate Rops p (v3sub Rops (a_pos a) (cog Rops fitg))).
+  rewrite <- rotate_qmul. apply rotate_matrix_eq. exact HMq.
+Qed.
+(* centre only (rotateToReference off): translations of all atoms *)
+Lemma fit_general_center_shift (q : Q4) ref t fitg g : fitg <> [] ->
+  fit_general Rops false q ref (shift_group t fitg) (shift_group t g) = fit_general Rops false q ref fitg g.
+Proof.
+  intros Hg. unfold fit_general. cbv zeta. rewrite cog_shift by exact Hg. unfold shift_group. rewrite map_map.
+  apply map_ext. intros a. cbn [a_pos shift_atom]. rewrite v3sub_shift. reflexivity.
+Qed.
+
+(* ------------------------------------------------------------------ rmsd with atomPermutation *)
+Lemma min_sum_cons s0 w l : min_sum Rops s0 (w :: l) = min_sum Rops (if Rltb w s0 then w else s0) l.
+Proof. reflexivity. Qed.
+Lemma min_sum_le_init s0 l : min_sum Rops s0 l <= s0.
+Proof.
+  revert s0. induction l as [|v l IH]; intros s0; [unfold min_sum; cbn [fold_left]; lra|]. rewrite min_sum_cons.
+  destruct (Rltb v s0) eqn:E; [apply Rltb_true in E; specialize (IH v); lra | apply IH].
+Qed.
+Lemma min_sum_le_each s0 l v : In v l -> min_sum Rops s0 l <= v.
+Proof.
+  revert s0. induction l as [|w l IH]; intros s0 H; [contradiction|]. rewrite min_sum_cons.
+  destruct H as [Hw|H]; [subst w|apply IH, H].
+  destruct (Rltb v s0) eqn:E.
+  - apply min_sum_le_init.
+  - apply Rltb_false in E. pose proof (min_sum_le_init s0 l). lra.
+Qed.
+Lemma cv_rmsd_perm_nil (q : Q4) ref g : cv_rmsd_perm Rops q ref [] g = cv_rmsd Rops q ref g.
+Proof. reflexivity. Qed.
+(* the symmetry-adapted rmsd is the smallest of the rmsd values against the reference and its listed permuted copies *)
+Lemma cv_rmsd_perm_min (q : Q4) ref perms g :
+  cv_rmsd_perm Rops q ref perms g <= cv_rmsd Rops q ref g /\
+  (forall perm, In perm perms ->
+     cv_rmsd_perm Rops q ref perms g <= sqrt (perm_sum Rops (fit_positions Rops q ref g) ref perm / INR (length g))).
+Proof.
+  unfold cv_rmsd_perm, cv_rmsd. cbv zeta. rewrite INR_nofnat. rs.
+  assert (Hn : 0 <= / INR (length g)).
+  { destruct (length g) as [|n]; [cbn; rewrite Rinv_0; lra|]. left. apply Rinv_0_lt_compat, lt_0_INR. lia. }
+  split.
+  - apply sqrt_le_1_alt. unfold Rdiv. apply Rmult_le_compat_r; [exact Hn | apply min_sum_le_init].
+  - intros perm Hp. apply sqrt_le_1_alt. unfold Rdiv. apply Rmult_le_compat_r; [exact Hn|].
+    apply min_sum_le_each. apply in_map. exact Hp.
+Qed.
